@@ -8,7 +8,7 @@
    Statements only. *)
 From Coq Require Import List Arith Bool.
 From M Require Import AsyncConc.
-From P Require Import AsyncConcP.
+From P Require Import AsyncConcP AsyncConcQ.
 Import ListNotations.
 
 (* ---- cancellation hits exactly its targets (cancel_running_transitions) ---- *)
@@ -84,8 +84,8 @@ Theorem C08_quiescent : forall defs mode n top prot fuel inits sched,
   (quiescent s = true -> h_reg (s_sh s) = [] /\ Forall (fun x => x < n) (h_mstate (s_sh s))).
 Proof. exact all_schedules_quiescent. Qed.
 
-(* ---- queue modes (queue discipline of _process_async; PARTIAL: proved per operation, the lift to the global
-   trace "blocks never overlap" is evaluated by the harness oracle on every model and implementation trace) ---- *)
+(* ---- queue modes, per operation (queue discipline of _process_async); the global statements over all
+   schedules follow below (the C08_global theorems) ---- *)
 
 (* queued=True / 'model': a trigger arriving while its queue (the shared one / its model's) is busy is appended
    at the END with the next arrival number and returns True at once: nothing of it runs now. *)
@@ -130,6 +130,57 @@ Theorem C08_model_serial : forall defs q f x rest h stk c h',
   (forall l, qlookup (h_queues h) q = Some l -> qlookup (h_queues h') q = Some [] /\ c = CExn x).
 Proof. exact drain_exn_local. Qed.
 
+(* ---- the queue modes on the GLOBAL log, for EVERY schedule ----
+   GBegin n e / GEnd n e r delimit the processing ("body") of the event with arrival number n (the value of the
+   ghost counter when its trigger appended it to the queue — C08_queued_deferred / C08_queued_idle); every
+   callback item, set_state, "conditions passed" carries the number of the body that emitted it. *)
+
+(* The log of every run in a queue mode is accepted by the serial scan AsyncConc.gscan: a body begins only while
+   no body of the same queue is open and not below the queue's arrival bound; every other item belongs to an open
+   body.  The three theorems below read this off. *)
+Theorem C08_global_scan : forall defs mode, mode <> QNone -> forall top prot fuel inits sched,
+  serial_log defs mode (h_log (s_sh (run_schedule defs mode top prot fuel (init_state mode inits) sched))).
+Proof. exact all_schedules_serial. Qed.
+
+(* queued=True, all models together: of any two bodies in the log, the later one begins only after the earlier one
+   has ended (no overlap), and the bodies begin in strictly increasing arrival number (arrival order). *)
+Theorem C08_global_serial_fifo : forall defs top prot fuel inits sched l1 n e l2 n' e' l3,
+  h_log (s_sh (run_schedule defs QShared top prot fuel (init_state QShared inits) sched)) =
+    l1 ++ GBegin n e :: l2 ++ GBegin n' e' :: l3 ->
+  (exists e2 r, In (GEnd n e2 r) l2) /\ n < n'.
+Proof. exact shared_serial_fifo. Qed.
+
+(* queued='model': the same for two bodies of events of the SAME model (bodies of different models may interleave:
+   nothing is claimed about them). *)
+Theorem C08_model_serial_fifo : forall defs top prot fuel inits sched l1 n e l2 n' e' l3,
+  h_log (s_sh (run_schedule defs QPerModel top prot fuel (init_state QPerModel inits) sched)) =
+    l1 ++ GBegin n e :: l2 ++ GBegin n' e' :: l3 ->
+  e_model (edef defs e) = e_model (edef defs e') ->
+  (exists e2 r, In (GEnd n e2 r) l2 /\ e_model (edef defs e2) = e_model (edef defs e)) /\ n < n'.
+Proof. exact model_serial_fifo. Qed.
+
+(* both queue modes: every item of the log lies inside the body of its own frame — after that frame's GBegin and
+   before its GEnd.  With the two theorems above: between the first and the last step of one body no step of
+   another body of the same queue occurs. *)
+Theorem C08_items_inside_body : forall defs mode top prot fuel inits sched l1 it l2,
+  mode <> QNone ->
+  h_log (s_sh (run_schedule defs mode top prot fuel (init_state mode inits) sched)) = l1 ++ it :: l2 ->
+  (forall n e, it <> GBegin n e) ->
+  exists la e lc, l1 = la ++ GBegin (item_no it) e :: lc /\
+                  (forall e' r, In (GEnd (item_no it) e' r) lc -> ekey defs mode e' <> ekey defs mode e).
+Proof. exact items_inside_body. Qed.
+
+(* a trigger that arrives (after any schedule) while a body of its queue is in progress runs nothing: it returns
+   True at once, the log, the model states and async_tasks are unchanged — or, if its model was removed
+   (queued='model'), raises KeyError. *)
+Theorem C08_busy_defers : forall defs mode, mode <> QNone -> forall top prot fuel inits sched e op lb,
+  let s := run_schedule defs mode top prot fuel (init_state mode inits) sched in
+  gscan defs mode gstate0 (h_log (s_sh s)) = Some (op, lb) -> In (ekey defs mode e) (map fst op) ->
+  (exists h', call_trigger defs mode e (s_sh s) = CalledRet (RBool true) h' /\
+              h_log h' = h_log (s_sh s) /\ h_mstate h' = h_mstate (s_sh s) /\ h_reg h' = h_reg (s_sh s)) \/
+  call_trigger defs mode e (s_sh s) = CalledExn X_KEY (s_sh s).
+Proof. exact all_schedules_busy. Qed.
+
 Print Assumptions C08_cancel_exact.
 Print Assumptions C08_cancel_step.
 Print Assumptions C08_frame_discipline.
@@ -143,6 +194,11 @@ Print Assumptions C08_queued_idle.
 Print Assumptions C08_queued_serial.
 Print Assumptions C08_queued_last.
 Print Assumptions C08_model_serial.
+Print Assumptions C08_global_scan.
+Print Assumptions C08_global_serial_fifo.
+Print Assumptions C08_model_serial_fifo.
+Print Assumptions C08_items_inside_body.
+Print Assumptions C08_busy_defers.
 
 (* non-vacuity: two triggers on one model, unqueued; both have a before callback and a finalize callback.
    Schedule: start 0, start 1, release 1 (its conditions have passed at start: task 0 was cancelled then),
@@ -156,4 +212,23 @@ Example C08_example :
   forallb (wf_def 3) ex_defs = true /\ quiescent s = true /\ h_reg (s_sh s) = [] /\ h_mstate (s_sh s) = [2] /\
   map t_res (s_tasks s) = [Some (RBool false); Some (RBool true)] /\
   existsb is_cancel_mark (h_log (s_sh s)) = true.
+Proof. vm_compute. repeat split; reflexivity. Qed.
+
+(* non-vacuity of the global statements: the same two events with queued=True — the second trigger returns True at
+   once, its body begins after the first body has ended; with queued='model' on two different models the two
+   bodies DO interleave (the second begins while the first is open). *)
+Definition begins_ends (l : list item) : list (bool * nat) :=
+  flat_map (fun it => match it with GBegin n _ => [(true, n)] | GEnd n _ _ => [(false, n)] | _ => [] end) l.
+Example C08_example_queued :
+  let s := run_schedule ex_defs QShared [0;1] [] 100 (init_state QShared [0]) [0;1;0;1;0;1;1;1] in
+  quiescent s = true /\ begins_ends (h_log (s_sh s)) = [(true,0); (false,0); (true,1); (false,1)] /\
+  map t_res (s_tasks s) = [Some (RBool true); Some (RBool true)] /\ h_mstate (s_sh s) = [2].
+Proof. vm_compute. repeat split; reflexivity. Qed.
+Definition ex_defs2 : list evdef :=
+  [mkEv 0 [0;1;2] [IPass; ICb 0 2 ANone; ISet 1] [ICb 0 FIN ANone];
+   mkEv 1 [0;1;2] [IPass; ICb 0 2 ANone; ISet 2] [ICb 0 FIN ANone]].
+Example C08_example_model :
+  let s := run_schedule ex_defs2 QPerModel [0;1] [] 100 (init_state QPerModel [0;0]) [0;1;0;1;0;1] in
+  quiescent s = true /\ begins_ends (h_log (s_sh s)) = [(true,0); (true,1); (false,0); (false,1)] /\
+  h_mstate (s_sh s) = [1;2].
 Proof. vm_compute. repeat split; reflexivity. Qed.
